@@ -656,6 +656,7 @@ pub fn run(ctx: &mut Ctx) {
     ctx.run_suite(&ChecksumSuite);
     ctx.run_suite(&RequestSuite);
     ctx.run_suite(&ReceiveSuite);
+    ctx.run_suite(&forwarder::ForwarderSuite);
     ctx.assume("echo payload bytes are random (ring::SystemRandom) and unconstrained; ICMPv6 checksums are computed by the kernel for raw ICMPv6 sockets, so only ICMPv4 checksums are asserted");
     ctx.assume("error codes the endpoint deliberately rejects (v4 unreachable > 5, time-exceeded > 1; v6 unreachable > 6) and quoted packets with IPv6 extension headers are don't-care");
     let _ = (junk(0, 0), Ipv4Addr::LOCALHOST);
@@ -666,6 +667,407 @@ pub fn replay(ctx: &mut Ctx, suite: &str, case: &Value) -> bool {
         "echo-checksum" => ctx.replay_suite(&ChecksumSuite, case),
         "request-decode" => ctx.replay_suite(&RequestSuite, case),
         "receive-path" => ctx.replay_suite(&ReceiveSuite, case),
+        "forwarder-histories" => ctx.replay_suite(&forwarder::ForwarderSuite, case),
         _ => false,
+    }
+}
+
+// ---------------------------------------------------------------------------------------------
+// the live forwarder: waiter table, delivery to the requesting client only, expiry
+
+pub mod forwarder {
+    use crate::engine::world::{CoreSpec, Outcome, Scripted, World};
+    use crate::engine::{self, aio, idx, viol, Suite, Tier, Verdict, Violation};
+    use crate::ensure;
+    use crate::props::tunnelreq::b64;
+    use crate::reference::icmp;
+    use bytes::Bytes;
+    use proptest::prelude::*;
+    use serde::{Deserialize, Serialize};
+    use std::net::{IpAddr, Ipv4Addr};
+    use std::sync::{Arc, Mutex};
+    use std::time::{Duration, Instant};
+    use tokio::sync::mpsc;
+    use trusttunnel::verif::session::{ChannelView, MuxPlan, Proto};
+
+    const TIMEOUT_MS: u64 = 400;
+
+    #[derive(Serialize, Deserialize, Debug, Clone, PartialEq, Eq)]
+    pub enum Op {
+        /// client c pings 127.0.0.<host> (answered by the kernel)
+        Echo { c: u8, host: u8, size: u16 },
+        /// client c pings a silent address (no reply ever comes)
+        EchoSilent { c: u8, size: u16 },
+        /// an ICMP error (3 = unreachable, 11 = time exceeded) about the n-th request sent so far,
+        /// quoting `quote` bytes of its payload (255 = the whole request)
+        ErrorAbout { n: u8, type_id: u8, code: u8, quote: u8 },
+        /// an ICMP error quoting a request nobody sent
+        ErrorAboutUnknown { type_id: u8 },
+        /// a truncated / corrupted ICMP error
+        Malformed { cut: u8 },
+        /// a forged echo reply for the n-th request (late when it comes after the time-out)
+        ForgedReply { n: u8 },
+        /// let the request time-out pass
+        WaitTimeout,
+    }
+
+    #[derive(Serialize, Deserialize, Debug, Clone)]
+    pub struct Case {
+        pub ops: Vec<Op>,
+    }
+
+    /// 7.4 record as decoded by the harness
+    #[derive(Debug, Clone, PartialEq, Eq)]
+    struct Reply {
+        id: u16,
+        source: IpAddr,
+        type_id: u8,
+        code: u8,
+        seq: u16,
+    }
+
+    struct Client {
+        send: h2::SendStream<Bytes>,
+        rx: mpsc::UnboundedReceiver<Reply>,
+        closed: Arc<Mutex<Option<String>>>,
+        _conn: tokio::task::JoinHandle<()>,
+    }
+
+    async fn open_mux(world: &World) -> Result<Client, String> {
+        let (io, _srv) = world.serve(Proto::Http2, ChannelView::Tunnel, "main.x", None, crate::engine::world::peer_v4(), 1 << 18);
+        let (send_req, conn) = h2::client::handshake(io).await.map_err(|e| e.to_string())?;
+        let conn = tokio::spawn(async move {
+            let _ = conn.await;
+        });
+        let req = http::Request::builder()
+            .method("CONNECT")
+            .uri("_icmp")
+            .header("proxy-authorization", format!("Basic {}", b64("user:pass")))
+            .body(())
+            .unwrap();
+        let mut sr = send_req.ready().await.map_err(|e| e.to_string())?;
+        let (fut, send) = sr.send_request(req, false).map_err(|e| e.to_string())?;
+        let resp = tokio::time::timeout(Duration::from_secs(5), fut).await.map_err(|_| "no response".to_string())?.map_err(|e| e.to_string())?;
+        if resp.status() != 200 {
+            return Err(format!("CONNECT _icmp answered {}", resp.status()));
+        }
+        let mut body = resp.into_body();
+        let (tx, rx) = mpsc::unbounded_channel();
+        let closed = Arc::new(Mutex::new(None));
+        let c2 = closed.clone();
+        tokio::spawn(async move {
+            let _keep = sr;
+            let mut buf: Vec<u8> = vec![];
+            loop {
+                match body.data().await {
+                    Some(Ok(b)) => {
+                        let _ = body.flow_control().release_capacity(b.len());
+                        buf.extend_from_slice(&b);
+                        while buf.len() >= 22 {
+                            let r: Vec<u8> = buf.drain(..22).collect();
+                            let _ = tx.send(Reply {
+                                id: u16::from_be_bytes([r[0], r[1]]),
+                                source: crate::reference::udpmux::decode_ip(&r[2..18]),
+                                type_id: r[18],
+                                code: r[19],
+                                seq: u16::from_be_bytes([r[20], r[21]]),
+                            });
+                        }
+                    }
+                    other => {
+                        *c2.lock().unwrap() = Some(format!("stream ended: {:?}", other.map(|r| r.map(|b| b.len()))));
+                        return;
+                    }
+                }
+            }
+        });
+        Ok(Client { send, rx, closed, _conn: conn })
+    }
+
+    /// A raw ICMP socket of the harness (sniffs outgoing requests, injects forged packets)
+    struct Raw(i32);
+
+    impl Raw {
+        fn new() -> Result<Self, String> {
+            let fd = unsafe { libc::socket(libc::AF_INET, libc::SOCK_RAW | libc::SOCK_NONBLOCK, libc::IPPROTO_ICMP) };
+            if fd < 0 {
+                return Err(std::io::Error::last_os_error().to_string());
+            }
+            Ok(Self(fd))
+        }
+        fn send(&self, from_host: u8, packet: &[u8]) {
+            let _ = from_host;
+            let addr = libc::sockaddr_in {
+                sin_family: libc::AF_INET as u16,
+                sin_port: 0,
+                sin_addr: libc::in_addr { s_addr: u32::from_ne_bytes([127, 0, 0, 1]) },
+                sin_zero: [0; 8],
+            };
+            unsafe {
+                libc::sendto(self.0, packet.as_ptr() as *const _, packet.len(), 0, &addr as *const _ as *const libc::sockaddr, std::mem::size_of_val(&addr) as u32);
+            }
+        }
+        /// all packets received so far (with IP header)
+        fn drain(&self) -> Vec<Vec<u8>> {
+            let mut out = vec![];
+            loop {
+                let mut buf = vec![0u8; 70_000];
+                let n = unsafe { libc::recv(self.0, buf.as_mut_ptr() as *mut _, buf.len(), libc::MSG_DONTWAIT) };
+                if n <= 0 {
+                    return out;
+                }
+                buf.truncate(n as usize);
+                out.push(buf);
+            }
+        }
+    }
+
+    impl Drop for Raw {
+        fn drop(&mut self) {
+            unsafe { libc::close(self.0) };
+        }
+    }
+
+    #[derive(Clone, Debug)]
+    struct Sent {
+        client: usize,
+        id: u16,
+        seq: u16,
+        dest: Ipv4Addr,
+        silent: bool,
+        at: Instant,
+        /// the request as it went on the wire (ICMP part), once sniffed
+        wire: Option<Vec<u8>>,
+    }
+
+    async fn run_history(c: &Case, nonce: u16) -> Verdict {
+        let herr = |e: String| Violation { sig: "harness:c11".into(), msg: e };
+        let raw = match Raw::new() {
+            Ok(r) => r,
+            Err(e) => return viol("harness:raw-socket", format!("cannot open a raw ICMP socket: {}", e)),
+        };
+        let spec = CoreSpec { icmp: true, icmp_timeout: Duration::from_millis(TIMEOUT_MS), ipv6_available: false, ..CoreSpec::default() };
+        let world = Arc::new(spec.build().map_err(herr)?);
+        let mut scripted = Scripted::new(|_| Outcome::Refused);
+        Arc::get_mut(&mut scripted).unwrap().icmp_plan = || MuxPlan::Real;
+        let _g = scripted.install(&world);
+        let w2 = world.clone();
+        let listener = tokio::spawn(async move { w2.core.verif_listen_icmp().await });
+        tokio::time::sleep(Duration::from_millis(20)).await;
+        if listener.is_finished() {
+            return viol("harness:icmp-listener", "the ICMP listener could not start (raw sockets on lo)");
+        }
+        let mut clients = vec![];
+        for _ in 0..3 {
+            clients.push(open_mux(&world).await.map_err(herr)?);
+        }
+        let mut sent: Vec<Sent> = vec![];
+        let mut got: Vec<Vec<Reply>> = vec![vec![], vec![], vec![]];
+        let mut expected: Vec<Vec<Reply>> = vec![vec![], vec![], vec![]];
+        let mut seq = 0u16;
+        // identifiers unique to this process and case, so that parallel workers ignore each other
+        let id_base = nonce | 0x8000;
+        let _ = raw.drain();
+
+        for (step, op) in c.ops.iter().enumerate() {
+            match op {
+                Op::Echo { .. } | Op::EchoSilent { .. } => {
+                    let (ci, dest, size, silent) = match op {
+                        Op::Echo { c, host, size } => (*c as usize % 3, Ipv4Addr::new(127, 0, 0, 1 + host % 250), *size % 1200, false),
+                        Op::EchoSilent { c, size } => (*c as usize % 3, Ipv4Addr::new(192, 0, 2, 77), *size % 1200, true),
+                        _ => unreachable!(),
+                    };
+                    seq = seq.wrapping_add(1);
+                    let id = id_base ^ (ci as u16);
+                    let rec = icmp::encode_request(&icmp::Request { id, destination: IpAddr::V4(dest), seq, ttl: 64, data_size: size });
+                    clients[ci].send.send_data(Bytes::from(rec), false).map_err(|e| herr(e.to_string()))?;
+                    sent.push(Sent { client: ci, id, seq, dest, silent, at: Instant::now(), wire: None });
+                    if !silent {
+                        expected[ci].push(Reply { id, source: IpAddr::V4(dest), type_id: 0, code: 0, seq });
+                    }
+                }
+                Op::ErrorAbout { n, type_id, code, quote } => {
+                    if sent.is_empty() {
+                        continue;
+                    }
+                    let k = idx((*n as u16) << 8, sent.len());
+                    // sniff the wire form of the requests we have not seen yet
+                    for p in raw.drain() {
+                        if p.len() >= 28 && p[20] == 8 {
+                            let (pid, pseq) = (u16::from_be_bytes([p[24], p[25]]), u16::from_be_bytes([p[26], p[27]]));
+                            if let Some(s) = sent.iter_mut().find(|s| s.id == pid && s.seq == pseq && s.wire.is_none()) {
+                                s.wire = Some(p[20..].to_vec());
+                            }
+                        }
+                    }
+                    let s = sent[k].clone();
+                    let Some(wire) = s.wire.clone() else { continue };
+                    let keep = if *quote == 255 { wire.len() } else { (8 + *quote as usize).min(wire.len()) };
+                    let quoted = icmp::ipv4_packet(1, &[], [127, 0, 0, 1], s.dest.octets(), &wire[..keep]);
+                    let t = if *type_id % 2 == 0 { 3 } else { 11 };
+                    let code = if t == 3 { code % 6 } else { code % 2 };
+                    raw.send(1, &icmp::error(t, code, [0, 0, 0, 0], &quoted));
+                    let alive = s.at.elapsed() < Duration::from_millis(TIMEOUT_MS * 7 / 10);
+                    let expired = s.at.elapsed() > Duration::from_millis(TIMEOUT_MS * 13 / 10 + 50);
+                    if alive {
+                        expected[s.client].push(Reply { id: s.id, source: IpAddr::V4(Ipv4Addr::LOCALHOST), type_id: t, code, seq: s.seq });
+                    } else if !expired {
+                        // around the time-out: may or may not be delivered
+                        expected[s.client].push(Reply { id: s.id, source: IpAddr::V4(Ipv4Addr::UNSPECIFIED), type_id: t, code, seq: s.seq });
+                    }
+                }
+                Op::ErrorAboutUnknown { type_id } => {
+                    let echo = icmp::echo(8, 0, id_base ^ 0x40, 0x7777, b"nobody sent this");
+                    let quoted = icmp::ipv4_packet(1, &[], [127, 0, 0, 1], [127, 0, 0, 9], &echo);
+                    raw.send(1, &icmp::error(if type_id % 2 == 0 { 3 } else { 11 }, 0, [0, 0, 0, 0], &quoted));
+                }
+                Op::Malformed { cut } => {
+                    let echo = icmp::echo(8, 0, id_base, seq, b"x");
+                    let quoted = icmp::ipv4_packet(1, &[], [127, 0, 0, 1], [127, 0, 0, 1], &echo);
+                    let mut p = icmp::error(3, 1, [0, 0, 0, 0], &quoted);
+                    p.truncate(8 + (*cut as usize % 27));
+                    raw.send(1, &p);
+                }
+                Op::ForgedReply { n } => {
+                    if sent.is_empty() {
+                        continue;
+                    }
+                    let s = sent[idx((*n as u16) << 8, sent.len())].clone();
+                    raw.send(1, &icmp::echo(0, 0, s.id, s.seq, &[]));
+                    let alive = s.at.elapsed() < Duration::from_millis(TIMEOUT_MS * 7 / 10);
+                    let expired = s.at.elapsed() > Duration::from_millis(TIMEOUT_MS * 13 / 10 + 50);
+                    if alive {
+                        expected[s.client].push(Reply { id: s.id, source: IpAddr::V4(Ipv4Addr::LOCALHOST), type_id: 0, code: 0, seq: s.seq });
+                    } else if !expired {
+                        expected[s.client].push(Reply { id: s.id, source: IpAddr::V4(Ipv4Addr::UNSPECIFIED), type_id: 0, code: 0, seq: s.seq });
+                    }
+                }
+                Op::WaitTimeout => {
+                    tokio::time::sleep(Duration::from_millis(TIMEOUT_MS * 13 / 10 + 80)).await;
+                    let w = world.core.verif_icmp_waiters().unwrap_or(0);
+                    ensure!(w == 0, "icmp:waiters-not-forgotten", "step {}: {} requests are still in the waiter table after the request time-out has passed", step, w);
+                }
+            }
+            tokio::time::sleep(Duration::from_millis(15)).await;
+            for (ci, cl) in clients.iter_mut().enumerate() {
+                while let Ok(r) = cl.rx.try_recv() {
+                    got[ci].push(r);
+                }
+                let dead = cl.closed.lock().unwrap().clone();
+                ensure!(dead.is_none(), "icmp:multiplexer-terminated", "step {}: client {} lost its stream: {:?}", step, ci, dead);
+            }
+            // nothing a client receives may be unexpected for that client
+            for ci in 0..3 {
+                let mut pool = expected[ci].clone();
+                for r in &got[ci] {
+                    let pos = pool.iter().position(|e| {
+                        e.id == r.id && e.seq == r.seq && e.type_id == r.type_id && e.code == r.code && (e.source == r.source || e.source == IpAddr::V4(Ipv4Addr::UNSPECIFIED))
+                    });
+                    match pos {
+                        Some(p) => {
+                            pool.remove(p);
+                        }
+                        None => {
+                            let other = (0..3).find(|o| *o != ci && expected[*o].iter().any(|e| e.id == r.id && e.seq == r.seq));
+                            return viol(
+                                if other.is_some() { "icmp:reply-delivered-to-wrong-client" } else { "icmp:unexpected-report" },
+                                format!("step {} ({:?}): client {} received {:?} which it must not (or not again)", step, op, ci, r),
+                            );
+                        }
+                    }
+                }
+            }
+        }
+        tokio::time::sleep(Duration::from_millis(60)).await;
+        for (ci, cl) in clients.iter_mut().enumerate() {
+            while let Ok(r) = cl.rx.try_recv() {
+                got[ci].push(r);
+            }
+        }
+        for ci in 0..3 {
+            for e in &expected[ci] {
+                if e.source == IpAddr::V4(Ipv4Addr::UNSPECIFIED) {
+                    continue; // optional
+                }
+                let n_exp = expected[ci].iter().filter(|x| *x == e).count();
+                let n_got = got[ci].iter().filter(|x| *x == e).count();
+                ensure!(
+                    n_got >= n_exp,
+                    if e.type_id == 0 { "icmp:reply-not-reported" } else { "icmp:error-not-reported" },
+                    "client {}: {:?} expected {} time(s), reported {} time(s)",
+                    ci,
+                    e,
+                    n_exp,
+                    n_got
+                );
+            }
+        }
+        tokio::time::sleep(Duration::from_millis(TIMEOUT_MS * 13 / 10 + 80)).await;
+        let w = world.core.verif_icmp_waiters().unwrap_or(0);
+        ensure!(w == 0, "icmp:waiters-not-forgotten", "{} requests still in the waiter table at the end", w);
+        listener.abort();
+        Ok(())
+    }
+
+    pub struct ForwarderSuite;
+
+    impl Suite for ForwarderSuite {
+        type Case = Case;
+        fn name(&self) -> &'static str {
+            "forwarder-histories"
+        }
+        fn rule(&self) -> String {
+            "three clients with CONNECT _icmp streams (HTTP/2 in memory) on one real IcmpForwarder bound to lo (raw ICMP sockets, kernel echo replies); histories of 3-12 operations: echo to 127.0.0.x, echo to a silent address, forged destination-unreachable / time-exceeded quoting the n-th request (sniffed from the wire) with 0-200 payload bytes or completely, errors about a request nobody sent, truncated errors, forged (possibly late) echo replies, waiting past the request time-out (400 ms); oracle: every reply / error about a pending request reaches exactly the requesting client with the responder's address, type, code, id and seq, once per packet; nothing else is reported to anybody; the waiter table is empty after the time-out; non-trivial = two clients with pending requests at the same time".into()
+        }
+        fn strategy(&self, _: Tier) -> BoxedStrategy<Case> {
+            let op = prop_oneof![
+                5 => (0u8..3, any::<u8>(), prop_oneof![Just(0u16), 1u16..64, 64u16..1200]).prop_map(|(c, host, size)| Op::Echo { c, host, size }),
+                3 => (0u8..3, prop_oneof![Just(0u16), 1u16..64, 64u16..1200]).prop_map(|(c, size)| Op::EchoSilent { c, size }),
+                5 => (any::<u8>(), any::<u8>(), any::<u8>(), prop_oneof![3 => Just(0u8), 2 => 1u8..64, 2 => Just(255u8), 1 => 64u8..200]).prop_map(|(n, type_id, code, quote)| Op::ErrorAbout { n, type_id, code, quote }),
+                1 => any::<u8>().prop_map(|type_id| Op::ErrorAboutUnknown { type_id }),
+                1 => any::<u8>().prop_map(|cut| Op::Malformed { cut }),
+                2 => any::<u8>().prop_map(|n| Op::ForgedReply { n }),
+                1 => Just(Op::WaitTimeout),
+            ];
+            prop::collection::vec(op, 3..=12).prop_map(|ops| Case { ops }).boxed()
+        }
+        fn cases(&self, tier: Tier) -> u64 {
+            tier.pick(240, 4800)
+        }
+        fn classify(&self, c: &Case) -> Vec<&'static str> {
+            let mut clients = std::collections::BTreeSet::new();
+            for op in &c.ops {
+                match op {
+                    Op::Echo { c, .. } | Op::EchoSilent { c, .. } => {
+                        clients.insert(c % 3);
+                    }
+                    _ => {}
+                }
+            }
+            let mut v = vec![];
+            if clients.len() >= 2 {
+                v.push("nontrivial");
+            }
+            if c.ops.iter().any(|o| matches!(o, Op::ErrorAbout { quote, .. } if *quote != 255)) {
+                v.push("truncated-quote");
+            }
+            if c.ops.contains(&Op::WaitTimeout) {
+                v.push("timeout");
+            }
+            v
+        }
+        fn required_classes(&self) -> Vec<&'static str> {
+            vec!["nontrivial", "truncated-quote", "timeout"]
+        }
+        fn check(&self, c: &Case) -> Verdict {
+            let c = c.clone();
+            // identifiers unique among the concurrently running workers and recent cases:
+            // 1 | shard (4 bits) | case counter (9 bits) | client (2 bits, added later)
+            static CASES: std::sync::atomic::AtomicU32 = std::sync::atomic::AtomicU32::new(0);
+            let shard = engine::SHARD.load(std::sync::atomic::Ordering::SeqCst) as u16 & 0xf;
+            let n = CASES.fetch_add(1, std::sync::atomic::Ordering::SeqCst) as u16 & 0x1ff;
+            let nonce = (shard << 11) | (n << 2);
+            aio::block_on_real(async move { run_history(&c, nonce).await })
+        }
     }
 }
